@@ -152,7 +152,19 @@ def run_mn(case, drv):
                 try:
                     fg.check_model()
                 except Exception as e:
-                    return fail(f"MarkovNetwork.to_factor_graph(): target fails its own check_model: {e}", **tags)
+                    # is the ONLY thing wrong the recorded one (factor nodes are the strings 'phi_<scope>' instead of the factors)?
+                    try:
+                        vnodes = set(mn.nodes())
+                        fn = [x for x in fg.nodes() if x not in vnodes]
+                        want = {"phi_" + "_".join(f.scope()): set(f.scope()) for f in mn.get_factors()}
+                        only = (all(isinstance(x, str) for x in fn) and set(fn) == set(want)
+                                and all(set(fg.neighbors(x)) == want[x] for x in fn)
+                                and not any(fg.has_edge(a, b) for a in vnodes for b in vnodes)
+                                and joint_compare(fg.get_factors(), fs, case, drv, "MN->FG") is None
+                                and str(e) == "Factors not associated for all the random variables")
+                    except Exception:
+                        only = False
+                    return fail({"msg": f"MarkovNetwork.to_factor_graph(): target fails its own check_model: {e}", "only_string_factor_nodes": only}, **tags)
                 err = joint_compare(fg.get_factors(), fs, case, drv, "MN->FG")
                 if err:
                     return fail(err, **tags)
